@@ -36,7 +36,9 @@ def prepare_alt():
     if REPO == '/repo':
         return
     os.makedirs(OUT, exist_ok=True)
-    subprocess.run('rsync -a --delete --exclude gen/ %s/coq/ %s/' % (ROOT, COQ), shell=True, check=True)
+    subprocess.run("rsync -a --delete --exclude gen/ --exclude '*.vo' --exclude '*.vos' --exclude '*.vok' --exclude '*.glob' "
+                   "--exclude '.*.aux' --exclude '.lia.cache' --exclude Makefile --exclude Makefile.conf --exclude .Makefile.d "
+                   "--exclude _CoqProject %s/coq/ %s/" % (ROOT, COQ), shell=True, check=True)
     os.makedirs(COQ + '/gen', exist_ok=True)
     subprocess.run('rsync -a --delete --exclude target/ --exclude Cargo.lock %s/harness/ %s/' % (ROOT, HARNESS), shell=True, check=True)
     subprocess.run("grep -rl '\"/repo/' %s --include=Cargo.toml | xargs -r sed -i 's#\"/repo/#\"%s/#g'" % (HARNESS, REPO), shell=True, check=True)
@@ -353,8 +355,11 @@ class Check:
             else:
                 by_cls[v['cls']] = v
         self.violations = list(by_cls.values())
+        known = [k for k in known_findings() if k.get('property') == self.pid and k.get('status') == 'open']
+        known_cls = {k.get('class') for k in known}
         rest = self.broken()
-        found = [v for v in self.violations if v['found']]
+        # violations with a failing input that are NOT suppressed as known findings
+        found = [v for v in self.violations if v['found'] and v['cls'] not in known_cls]
         if rest and found:
             for v in found:
                 v['replay']['broken_obligations'] = [o['name'] for o in rest if 'not checked: build failed' not in o['detail']]
